@@ -1824,3 +1824,69 @@ Section Simple.
     split; [|exact Heq]. rewrite active_tables_eq. exact Hlink.
   Qed.
 End Simple.
+
+(* a concrete whole file meeting every hypothesis of [simple_file_roundtrip]:
+   header 1 (sequence 5) valid, header 2 zeros, replay log at 200, object table at 0x2000 with an
+   unallocated entry, an ignored allocated Free entry and the key table [ex_stable] at 8300 *)
+Definition ex_whole : file :=
+  {| fl_size := 9000;
+     fl_chunks :=
+       [(0, enc_fields W_fhdr [19406868; 0; 5; 1024; 0; 4096; 200; 4096; 4096]);
+        (200, enc_fields W_rlog [17891331; 0; 0; 0; 145; 0; 0; 0; 0; 0]);
+        (8192, enc_fields W_otab [17891329; 3]
+               ++ enc_fields W_oent [1; 0; 8192; 64; 0]
+               ++ enc_fields W_oent [4; 0; 12288; 4096; 1]
+               ++ enc_fields W_oent [2; 0; 8300; 76; 1]);
+        (8300, st_bytes ex_stable)] |}.
+
+Definition ex_oes : list oentry :=
+  [ {| o_type := 1; o_off := 8192; o_size := 64; o_alloc := 0 |};
+    {| o_type := 4; o_off := 12288; o_size := 4096; o_alloc := 1 |};
+    {| o_type := 2; o_off := 8300; o_size := 76; o_alloc := 1 |} ].
+
+Definition ex_h1 : fhdr :=
+  {| h_sig := 19406868; h_seq := 5; h_ver := 1024; h_align := 4096; h_rlo := 200; h_rls := 4096; h_hsize := 4096 |}.
+Definition ex_h2 : fhdr :=
+  {| h_sig := 0; h_seq := 0; h_ver := 0; h_align := 0; h_rlo := 0; h_rls := 0; h_hsize := 0 |}.
+
+Lemma ex_stable_ok f fo : Forall (stable_ok f fo) [ex_stable].
+Proof.
+  constructor; [|constructor]. unfold stable_ok. cbn [ex_stable st_idx st_seq st_ck st_entries st_tail st_size st_slots].
+  split; [lia|]. split; [lia|]. split; [lia|]. split; [|split].
+  - repeat constructor; cbn; lia.
+  - left. split; reflexivity.
+  - cbn [slots_ok]. split; [|split; [|exact I]].
+    + unfold entry_stores. cbn. repeat split; reflexivity.
+    + unfold entry_stores. split; [reflexivity|]. split; [reflexivity|]. split; [reflexivity|]. split; [reflexivity|].
+      cbn [at_payload ex_child]. apply (st_int _ _ _ (-5) []).
+      * vm_compute. reflexivity.
+      * vm_compute. reflexivity.
+      * cbn. lia.
+      * vm_compute. reflexivity.
+Qed.
+
+Lemma ex_whole_file :
+  parse_fhdr (fread ex_whole 0 46) = Some ex_h1 /\ parse_fhdr (fread ex_whole 4096 46) = Some ex_h2 /\
+  h_sig (active_header ex_h1 ex_h2) = 19406868 /\ h_ver (active_header ex_h1 ex_h2) = 1024 /\
+  load_rlog ex_whole (h_rlo (active_header ex_h1 ex_h2)) = Ok tt /\
+  load_otab ex_whole 8192 = Ok ex_oes /\
+  (forall e, In e ex_oes -> o_alloc e <> 0 ->
+             o_type e <> 1 /\ (o_type e = 6 -> load_rlog ex_whole (o_off e) = Ok tt)) /\
+  Forall2 (fun e kt => load_ktab ex_whole (o_off e) (o_size e) = Ok kt) (filter is_ktab ex_oes) [kt_of ex_stable] /\
+  Forall (stable_ok ex_whole (fobjs_of ex_oes)) [ex_stable] /\
+  (forall T, In T [ex_stable] -> In (kt_of T) [kt_of ex_stable]) /\
+  (forall kt, In kt [kt_of ex_stable] ->
+     exists T, In T [ex_stable] /\ st_idx T = kt_index kt /\ (kt = kt_of T \/ kt_seq kt < st_seq T)) /\
+  (exists p, open_file ex_whole = Ok p /\
+             link (p_tables p) = Ok (Node [([99], Node [([118], Leaf (VInt (-5)))])])).
+Proof.
+  split; [vm_compute; reflexivity|]. split; [vm_compute; reflexivity|].
+  split; [reflexivity|]. split; [reflexivity|]. split; [vm_compute; reflexivity|]. split; [vm_compute; reflexivity|].
+  split.
+  { intros e [<-|[<-|[<-|[]]]]; cbn; intros Ha; split; try lia; try discriminate. }
+  split; [cbn [filter ex_oes is_ktab o_alloc o_type]; cbn; constructor; [vm_compute; reflexivity|constructor]|].
+  split; [apply ex_stable_ok|].
+  split; [intros T [<-|[]]; now left|].
+  split; [intros kt [<-|[]]; exists ex_stable; split; [now left|split; [reflexivity|now left]]|].
+  eexists. split; vm_compute; reflexivity.
+Qed.
